@@ -80,7 +80,7 @@ Qed.
 Lemma ins_perm x l : Permutation (ins piece nfiles x l) (x :: l).
 Proof.
   induction l as [|y r IH]; cbn [ins]; [reflexivity|].
-  destruct (nfiles x <? nfiles y); [reflexivity|].
+  destruct (nfiles y <? nfiles x); [|reflexivity].
   eapply Permutation_trans; [apply perm_skip; exact IH|]. apply perm_swap.
 Qed.
 
